@@ -372,8 +372,18 @@ Proof.
       apply N.eqb_eq in H; lia. }
   split.
   - unfold is_space.
-    repeat match goal with |- context [N.leb ?a ?b] => destruct (N.leb_spec a b) end;
-    repeat match goal with |- context [N.eqb ?a ?b] => destruct (N.eqb_spec a b) end; try reflexivity; lia.
+    replace (c <=? 13)%N with false by (symmetry; apply N.leb_gt; lia).
+    replace (c <=? 32)%N with false by (symmetry; apply N.leb_gt; lia).
+    replace (8192 <=? c)%N with false by (symmetry; apply N.leb_gt; lia).
+    replace (c =? 133)%N with false by (symmetry; apply N.eqb_neq; lia).
+    replace (c =? 160)%N with false by (symmetry; apply N.eqb_neq; lia).
+    replace (c =? 5760)%N with false by (symmetry; apply N.eqb_neq; lia).
+    replace (c =? 8232)%N with false by (symmetry; apply N.eqb_neq; lia).
+    replace (c =? 8233)%N with false by (symmetry; apply N.eqb_neq; lia).
+    replace (c =? 8239)%N with false by (symmetry; apply N.eqb_neq; lia).
+    replace (c =? 8287)%N with false by (symmetry; apply N.eqb_neq; lia).
+    replace (c =? 12288)%N with false by (symmetry; apply N.eqb_neq; lia).
+    rewrite !andb_false_r. reflexivity.
   - intros x Hx. apply N.eqb_neq. cbn [In] in Hx. intuition lia.
 Qed.
 
@@ -678,169 +688,3 @@ Section Strings.
   Qed.
 End Strings.
 
-(* ------------------------------------------------------------ reflection over the 349 slots *)
-Definition allof_defect_slots : list (str * str) :=
-  [(Str "class", Str "backgroundcolor"); (Str "class", Str "color"); (Str "class", Str "debug");
-   (Str "class", Str "outlinecolor"); (Str "label", Str "backgroundcolor");
-   (Str "label", Str "backgroundshadowcolor"); (Str "label", Str "expression"); (Str "layer", Str "debug");
-   (Str "legend", Str "interlace"); (Str "legend", Str "transparent"); (Str "map", Str "debug");
-   (Str "map", Str "transparent"); (Str "scalebar", Str "transparent"); (Str "style", Str "backgroundcolor")].
-
-Lemma inconsistent_slots_are_allof : inconsistent_slots = allof_defect_slots.
-Proof. vm_compute. reflexivity. Qed.
-
-Lemma slot_count : length all_slots = 349.
-Proof. vm_compute. reflexivity. Qed.
-
-Definition pair_eqb (a b : str * str) : bool := str_eqb (fst a) (fst b) && str_eqb (snd a) (snd b).
-
-Lemma consistent_or_listed slot :
-  In slot all_slots -> consistent slot = true \/ In (slot_name slot) allof_defect_slots.
-Proof.
-  intros Hin. destruct (consistent slot) eqn:E; [left; reflexivity|right].
-  rewrite <- inconsistent_slots_are_allof. unfold inconsistent_slots. apply in_map.
-  apply filter_In. split; [exact Hin|rewrite E; reflexivity].
-Qed.
-
-(* the defect slots really are defects: the schema offers a string form, the text is the raw string *)
-Definition find_slot (t k : str) : option (str * str * json) :=
-  find (fun s => pair_eqb (slot_name s) (t, k)) all_slots.
-
-Definition fv (o : opts) (t k : str) (v : value) : res value :=
-  do props <- get_attribute_properties t k; format_value o k props v.
-
-Lemma allof_unquoted_witness :
-  fv default_opts (Str "label") (Str "expression") (VStr (Str "abc")) = Ok (VStr (Str "abc"))
-  /\ (exists slot, find_slot (Str "label") (Str "expression") = Some slot
-                   /\ required_string (Str "expression") (slot_offers slot) (Str "abc") = RQuoted (Str "abc"))
-  /\ fv default_opts (Str "class") (Str "backgroundcolor") (VStr (Str "#ff0000")) = Ok (VStr (Str "#ff0000"))
-  /\ (exists slot, find_slot (Str "class") (Str "backgroundcolor") = Some slot
-                   /\ required_string (Str "backgroundcolor") (slot_offers slot) (Str "#ff0000") = RQuoted (Str "#ff0000"))
-  /\ fv default_opts (Str "layer") (Str "debug") (VStr (Str "on")) = Ok (VStr (Str "on"))
-  /\ (exists slot, find_slot (Str "layer") (Str "debug") = Some slot
-                   /\ required_string (Str "debug") (slot_offers slot) (Str "on") = RWord (Str "ON")).
-Proof.
-  split; [vm_compute; reflexivity|]. split; [eexists; split; vm_compute; reflexivity|].
-  split; [vm_compute; reflexivity|]. split; [eexists; split; vm_compute; reflexivity|].
-  split; [vm_compute; reflexivity|]. eexists; split; vm_compute; reflexivity.
-Qed.
-
-(* ------------------------------------------------------------ numbers, booleans, lists *)
-Lemma number_text o attr props v :
-  number_value v = true ->
-  match pshape_of props with
-  | PSString true => True
-  | PSString false => format_value o attr props v = Ok (VStr (add_quotes (quote o) (py_str v)))
-  | _ => format_value o attr props v = Ok v
-  end.
-Proof. intros H. rewrite (format_value_num o attr props v H). destruct (pshape_of props) as [|[|]| |]; auto. Qed.
-
-Lemma bool_text o attr props b :
-  format_value o attr props (VBool b) = Ok (VStr (if b then Str "TRUE" else Str "FALSE"))
-  /\ tokenize (if b then Str "TRUE" else Str "FALSE") = Some [(TWord, if b then Str "TRUE" else Str "FALSE")].
-Proof. split; [apply format_value_bool|destruct b; reflexivity]. Qed.
-
-(* a list of numbers under a keyword that is neither enum nor string typed: the
-   numbers separated by single spaces *)
-Lemma number_list_text o attr props l :
-  forallb number_value l = true ->
-  match pshape_of props with
-  | PSOneOf _ | PSFall => format_value o attr props (VList l) = Ok (VStr (join [c_sp] (map py_str l)))
-  | _ => True
-  end.
-Proof.
-  intros H. rewrite format_value_list.
-  assert (E : map (quote_list_element o attr) l = map py_str l).
-  { apply map_ext_in. intros x Hx. rewrite forallb_forall in H. specialize (H x Hx).
-    unfold quote_list_element. destruct x; try discriminate H; reflexivity. }
-  destruct (pshape_of props) as [|[|]| |]; try exact I; rewrite E; reflexivity.
-Qed.
-
-(* list elements that are bindings: bare only for offset / polaroffset *)
-Lemma list_binding_witness :
-  fv default_opts (Str "label") (Str "shadowsize") (VList [VStr (Str "[a]"); VStr (Str "[b]")])
-    = Ok (VStr (add_quotes 34%N (Str "[a]") ++ Str " " ++ add_quotes 34%N (Str "[b]")))
-  /\ fv default_opts (Str "label") (Str "offset") (VList [VStr (Str "[a]"); VStr (Str "[b]")])
-    = Ok (VStr (Str "[a] [b]"))
-  /\ (exists slot, find_slot (Str "label") (Str "shadowsize") = Some slot
-        /\ existsb (fun a => match jget (Str "items") a with
-                             | Some it => offers_pattern binding_prefix (offers_of (alternatives 8 it))
-                             | None => false end) (alternatives 8 (snd slot)) = true).
-Proof.
-  split; [vm_compute; reflexivity|]. split; [vm_compute; reflexivity|].
-  eexists. split; vm_compute; reflexivity.
-Qed.
-
-(* ------------------------------------------------------------ refusal of values without a Mapfile form *)
-Lemma empty_dict_refused_enum o attr props c :
-  pshape_of props = PSEnum -> format_value o attr props (VDict c []) = Err PyValueError.
-Proof. intros H. rewrite format_value_empty_dict, H. reflexivity. Qed.
-
-Definition enum_slots : list (str * str * json) :=
-  filter (fun s => match shape_of_slot s with Some PSEnum => true | _ => false end) all_slots.
-
-Lemma enum_slot_count : length enum_slots = 40.
-Proof. vm_compute. reflexivity. Qed.
-
-Lemma empty_dict_refused_slots o slot c :
-  In slot enum_slots -> fv o (fst (fst slot)) (snd (fst slot)) (VDict c []) = Err PyValueError.
-Proof.
-  unfold enum_slots. intros H. apply filter_In in H. destruct H as [_ H].
-  unfold shape_of_slot in H. unfold fv.
-  destruct (get_attribute_properties (fst (fst slot)) (snd (fst slot))) as [props|e]; [|discriminate].
-  cbn [bind]. destruct (pshape_of props) eqn:E; try discriminate. apply empty_dict_refused_enum. exact E.
-Qed.
-
-Definition autocreated_layer : value :=
-  VDict (DCI true) [(Str "__type__", VStr (Str "layer")); (Str "name", VStr (Str "x")); (Str "group", VDict (DCI false) [])].
-
-(* under a non-enum keyword the empty dict is written as text *)
-Lemma empty_dict_printed_witness :
-  fv default_opts (Str "layer") (Str "group") (VDict (DCI false) []) = Ok (VStr (add_quotes 34%N (Str "{}")))
-  /\ fv default_opts (Str "map") (Str "web") (VDict (DCI false) []) = Ok (VDict (DCI false) [])
-  /\ exists text v', pprint default_opts autocreated_layer = Ok (text, v')
-                     /\ str_contains (Str "GROUP ""{}""") text = true.
-Proof.
-  split; [vm_compute; reflexivity|]. split; [vm_compute; reflexivity|].
-  eexists _, _. split; vm_compute; reflexivity.
-Qed.
-
-(* ------------------------------------------------------------ hidden keys *)
-Lemma hidden_item_no_lines o rec type_ comments level aligned k v :
-  hidden_key k = true -> format_item o rec type_ comments level aligned k v = Ok ([], v).
-Proof. intros H. unfold format_item. change (is_metadata k) with (hidden_key k). rewrite H. reflexivity. Qed.
-
-Lemma hidden_entry_no_line o level aligned comments k v l :
-  hidden_key k = true ->
-  process_dict_lines o level aligned comments ((k, v) :: l) = process_dict_lines o level aligned comments l.
-Proof. intros H. cbn [process_dict_lines]. change (is_metadata k) with (hidden_key k). rewrite H. reflexivity. Qed.
-
-Lemma hidden_key_not_counted k v items :
-  hidden_key k = true -> compute_max_key_length ((k, v) :: items) = compute_max_key_length items.
-Proof.
-  intros H. cbn [compute_max_key_length]. unfold counts_for_alignment. change (is_metadata k) with (hidden_key k).
-  rewrite H. reflexivity.
-Qed.
-
-(* every line of the body of an object comes from a key that is not hidden *)
-Lemma body_lines_from_visible_keys o level c its lines v' :
-  _format o level (VDict c its) = Ok (lines, v') ->
-  exists type_ head (sorted : list (str * value)) (rs : list (list str * value)),
-    lines = head ++ concat (map fst rs) ++ [add_end_line o level 0 type_]
-    /\ (forall x, In x sorted <-> In x its)
-    /\ Forall2 (fun kv r => hidden_key (fst kv) = true -> fst r = []) sorted rs.
-Proof.
-  intros H. destruct (_format_inv o level c its lines v' H) as (type_ & head & sorted & rs & _ & _ & Hin & HF & Hl & _).
-  exists type_, head, sorted, rs. split; [exact Hl|]. split; [exact Hin|].
-  eapply Forall2_impl; [|exact HF]. intros [k v] r Hr Hh. cbn [fst snd] in *.
-  rewrite (hidden_item_no_lines _ _ _ _ _ _ k v Hh) in Hr. injection Hr as <-. reflexivity.
-Qed.
-
-(* CONFIG blocks are not filtered *)
-Lemma hidden_config_witness :
-  exists text v',
-    pprint default_opts
-      (VDict (DCI true) [(Str "__type__", VStr (Str "map"));
-                         (Str "config", VDict (DCI true) [(Str "__x__", VStr (Str "y"))])]) = Ok (text, v')
-    /\ str_contains (Str "__X__") text = true.
-Proof. eexists _, _. split; vm_compute; reflexivity. Qed.
